@@ -8,7 +8,7 @@ from __future__ import annotations
 from typing import Any
 
 from models.shapes import all_shapes, number
-from models.zoo import CLASSES, R, build, describe, reset_all
+from models.zoo import CLASSES, R, build, describe, recipe_size, reset_all
 from oracles import traversal as T
 from vcheck.core import Family, Spec
 
@@ -56,6 +56,34 @@ def _shared_shapes() -> list[Any]:
     ]
 
 
+class _FalsyCallable:
+    def __init__(self, fn):
+        self.fn = fn
+
+    def __bool__(self):
+        return False
+
+    def __call__(self, info):
+        return self.fn(info)
+
+
+class _EmptyContainerCallable(frozenset):
+    """An (empty) selection of names that is also the predicate deciding membership."""
+
+    fn: Any = None
+
+    def __call__(self, info):
+        return self.fn(info)
+
+
+def _as_object(kind: str, fn):
+    if kind == "falsy-bool-callable":
+        return _FalsyCallable(fn)
+    obj = _EmptyContainerCallable()
+    obj.fn = fn
+    return obj
+
+
 def _stream(infos) -> list[tuple]:
     return [(id(i.node), id(i.parent), i.field.name, i.findex) for i in infos]
 
@@ -93,7 +121,7 @@ def _mi_prepare(e, firsts=("MNamed", "MBodied", "MFunc", "MEmpty")):
     return [number(x) for x in shapes], {"class_used_first": first}
 
 
-def make_harness(shapes: list[Any], shared: bool = False, prepare=None):
+def make_harness(shapes: list[Any], shared: bool = False, prepare=None, pred_objects: bool = False):
     def harness(e):
         reset_all()
         extra_info: dict[str, Any] = {}
@@ -121,6 +149,14 @@ def make_harness(shapes: list[Any], shared: bool = False, prepare=None):
 
         def filter_cb(info):
             return bit(fbits, (id(info.node), id(info.parent), info.field.name, info.findex), "filter")
+
+        # the predicate objects themselves: plain functions, or callable objects that are falsy
+        # in a boolean context (an empty collection / a zero number with __call__) -- the
+        # traversal has to call whatever predicate it was given
+        if pred_objects:
+            kind = e.pick(["falsy-bool-callable", "empty-container-callable"], "predicate_object")
+            extra_info["predicate_object"] = kind
+            prune_cb, filter_cb = _as_object(kind, prune_cb), _as_object(kind, filter_cb)
 
         # the same predicates for the reference (receive positions)
         with_prune = e.flag("with_prune")
@@ -241,6 +277,8 @@ def spec(tier: str, seed: int) -> Spec:
     fams = []
     for k in range(0, len(shapes), chunk):
         fams.append(Family(f"shapes[{k}:{k+chunk}]", make_harness(shapes[k : k + chunk]), variables="lazy: prune/filter bit per position, bottom_up, exact_type; selector: shape, mode, gather classes"))
+    po_shapes = [x for x in shapes if 3 <= recipe_size(x) <= 4][::3][:12]
+    fams.append(Family("predicate-objects", make_harness(po_shapes, pred_objects=True), variables="as above; prune / filter are callable objects that are falsy in a boolean context"))
     fams.append(Family("falsy-single", make_harness(_falsy_shapes()), variables="as above; trees containing a falsy node class"))
     fams.append(Family("shared-object", make_harness(_shared_shapes(), shared=True), variables="as above; one node object stored at two positions"))
     for first in ("MNamed", "MBodied", "MFunc", "MEmpty"):
